@@ -22,6 +22,7 @@ type halfPipe struct {
 	buf    []byte
 	closed bool
 	total  int // bytes ever written
+	waits  int // number of times a Read had to park because the pipe was empty
 }
 
 func newHalfPipe() *halfPipe {
@@ -46,6 +47,7 @@ func (h *halfPipe) Read(p []byte) (int, error) {
 	h.mu.Lock()
 	defer h.mu.Unlock()
 	for len(h.buf) == 0 && !h.closed {
+		h.waits++
 		h.cond.Wait()
 	}
 	if len(h.buf) == 0 {
@@ -71,6 +73,13 @@ func (h *halfPipe) ReadN(n int) ([]byte, error) {
 	out := append([]byte(nil), h.buf[:n]...)
 	h.buf = h.buf[n:]
 	return out, nil
+}
+
+// parkedReads: how often a reader has parked on the empty pipe so far.
+func (h *halfPipe) parkedReads() int {
+	h.mu.Lock()
+	defer h.mu.Unlock()
+	return h.waits
 }
 
 // Drain returns everything buffered right now without blocking.
